@@ -285,8 +285,8 @@ impl Harness for C08 {
             lattice_jobs(&mut jobs, "enet", 1, 4, 4, 2, "noshift", "zerosum", false);
             lattice_jobs(&mut jobs, "lasso", 2, 3, 4, 3, "full", "free", false);
             lattice_jobs(&mut jobs, "enet", 2, 3, 4, 3, "noshift", "zerosum", false);
-            lattice_jobs(&mut jobs, "lasso", 2, 4, 3, 4, "diag", "free", false);
-            lattice_jobs(&mut jobs, "enet", 2, 4, 3, 4, "noshift1", "zerosum", false);
+            lattice_jobs(&mut jobs, "lasso", 2, 4, 3, 4, "full", "free", false);
+            lattice_jobs(&mut jobs, "enet", 2, 4, 3, 4, "noshift", "zerosum", false);
             lattice_jobs(&mut jobs, "lasso", 3, 4, 2, 5, "diag", "free", false);
             lattice_jobs(&mut jobs, "enet", 3, 4, 2, 5, "noshift1", "zerosum", false);
         }
@@ -339,7 +339,7 @@ impl Harness for C08 {
         }
         Plan {
             jobs,
-            budget_s: if t { 2400 } else { 40 },
+            budget_s: if t { 2700 } else { 40 },
             case_deadline_ms: 20_000,
             floors: vec![
                 ("fits_ok", 500_000),
@@ -361,7 +361,7 @@ impl Harness for C08 {
             ],
             bounds: json!({
                 "lattice_lasso": if t {
-                    "every X over S4={0,1,-1,2} (no constant column) for (p,n) in {(1,2),(1,3),(1,4),(2,3)}, over S3={0,1,-1} for (2,4), over {0,1} for (3,4); every y over {0,1,-2,3}^n; alpha {0.1,1,1e-3,10} x normalize {on,off} x tol {1e-4,1e-3,1e-6} x shift {0,10,1e4} (p>=2,n=4: tol and shift paired)"
+                    "every X over S4={0,1,-1,2} (no constant column) for (p,n) in {(1,2),(1,3),(1,4),(2,3)}, over S3={0,1,-1} for (2,4), over {0,1} for (3,4); every y over {0,1,-2,3}^n; alpha {0.1,1,1e-3,10} x normalize {on,off} x tol {1e-4,1e-3,1e-6} x shift {0,10,1e4} (p=3: tol and shift paired)"
                 } else {
                     "every X over S4={0,1,-1,2} (no constant column) for (p,n) in {(1,2),(1,3)}, over S3={0,1,-1} for (2,3); every y over {0,1,-2,3}^n; alpha {0.1,1,1e-3,10} x normalize {on,off} x tol {1e-4,1e-3,1e-6} x shift {0,10,1e4} (p=2: tol and shift paired)"
                 },
